@@ -261,6 +261,9 @@ def run_shard(shard):
                 if name == "OccupancyEvent" or (fields.get("short") is not None and data in (None, 0, 1023)):
                     event_roundtrip(res, mod, name, itype, sch, fields, data, "obj", from_frame)
                     res["evaluations"] += 1
+                    if name == "OccupancyEvent":
+                        event_roundtrip(res, mod, name, itype, sch, fields, data, "objlit", from_frame)
+                        res["evaluations"] += 1
         res["distinct"].add((mod, name, sch))
         sample(res, {"event": name, "scheme": sch})
     elif k == "illegal":
